@@ -2,11 +2,67 @@
 package main
 
 import (
+	"encoding/json"
+	"os"
+
+	"verifh/lib"
 	"verifh/luagen"
 	"verifh/luaprop"
 )
 
+// extras: the Go-side runs of C02 (tail-call depth, the call contract at the host boundary).
+func extras(w *lib.Writer, tier string, seed uint64) {
+	tailCalls(w, tier, seed)
+	hostCalls(w, tier, seed)
+}
+
+// replayExtra re-runs a Go-side extra case named by a replay file (the common main replays
+// generated programs and corpus entries only). Returns false if the file is not one of ours.
+func replayExtra() bool {
+	if len(os.Args) < 2 || os.Args[1] != "run" {
+		return false
+	}
+	a := lib.ParseArgs()
+	if a.Replay == "" {
+		return false
+	}
+	b, err := os.ReadFile(a.Replay)
+	if err != nil {
+		return false
+	}
+	var rp struct {
+		Input struct {
+			API    string `json:"c02api"`
+			Tail   string `json:"tail"`
+			Config int    `json:"config"`
+			Seed   uint64 `json:"seed"`
+			Steps  int    `json:"steps"`
+		} `json:"input"`
+	}
+	if json.Unmarshal(b, &rp) != nil || (rp.Input.API == "" && rp.Input.Tail == "") {
+		return false
+	}
+	w, err := lib.NewWriter(a.Out, "C02", a.Tier, a.Seed, luaprop.VMHeader, "vcase", 20)
+	if err != nil {
+		panic(err)
+	}
+	w.HasSkip = true
+	w.Meta.Rule = "replay of a Go-side extra case"
+	if rp.Input.API != "" {
+		hostCallsCase(w, rp.Input.Config, rp.Input.Seed, rp.Input.Steps)
+	} else {
+		tailCalls(w, a.Tier, a.Seed)
+	}
+	if err := w.Close(); err != nil {
+		panic(err)
+	}
+	return true
+}
+
 func main() {
+	if replayExtra() {
+		return
+	}
 	f := luagen.CoreFeatures()
 	f.Funcs, f.Varargs, f.MultiAssign, f.Closures, f.Goto, f.Errors, f.Tables = 14, 12, 5, 1, 0, 1, 4
 	luaprop.Main(&luaprop.Config{
@@ -19,7 +75,7 @@ func main() {
 		NThorough: 2500,
 		Corpus:    corpus,
 		VM:        true,
-		Extra:     tailCalls,
+		Extra:     extras,
 	})
 }
 
